@@ -44,6 +44,10 @@ def tokenize(bs):
                 out.append(("cuu", int(params) if params else 1))
             elif f == "D":
                 out.append(("cub", int(params) if params else 1))
+            elif f == "B" and (params == "" or params.isdigit()):
+                out.append(("cud", int(params) if params else 1))
+            elif f == "C" and (params == "" or params.isdigit()):
+                out.append(("cuf", int(params) if params else 1))
             elif f == "H":
                 if params == "":
                     out.append(("home",))
@@ -92,6 +96,10 @@ def coq_tok(t):
         return "TCUU %d%%nat" % t[1]
     if k == "cub":
         return "TCUB %d%%nat" % t[1]
+    if k == "cud":
+        return "TCUD %d" % t[1]
+    if k == "cuf":
+        return "TCUF %d" % t[1]
     if k == "cup":
         return "TCUP %d%%nat" % t[1]
     if k == "set":
